@@ -708,6 +708,10 @@ func goCode(root string, unit string) string {
 		header("Model.GoSem", "Model.GoJson", "Model.Link")
 		text, errs := translateLink(root, "pub/link.go")
 		emit("pub/link.go (struct, constructor, methods, selection)", text, errs)
+	case "collection":
+		header("Model.GoRec", "Model.Json", "Model.Collection")
+		text, errs := translateCollection(parseFile(root, "pub/collection.go"))
+		emit("pub/collection.go (Harvest, harvestWithEmptyCount)", text, errs)
 	default:
 		b.WriteString("-- unknown unit " + unit + "\n")
 	}
